@@ -85,8 +85,13 @@ func (l *Layouter) Layout(s string) []glyph.Info {
 	}
 
 	font := l.font
+	numGlyphs := font.NumGlyphs()
 	for i := range seq {
 		gid := seq[i].GID
+		if int(gid) >= numGlyphs {
+			// an invalid glyph ID from the cmap or a substitution: no advance
+			continue
+		}
 		if !font.Gdef.IsMark(gid) {
 			seq[i].Advance = funit.Int16(font.GlyphWidth(gid)) // TODO(voss)
 		}
